@@ -132,6 +132,9 @@ fn word_from_text(s: &str) -> Option<W> {
 }
 
 pub fn replay(case: &Value) -> Result<Verdict, String> {
+    if case["kind"] == "fuzz-input" {
+        return crate::fuzzrun::replay(case);
+    }
     let words = case["words"].as_array().ok_or("no words")?;
     let ws: Vec<W> = words
         .iter()
@@ -295,7 +298,7 @@ pub fn run(ctx: &Ctx) -> Report {
     total.exhaustive_parts.push(format!("all word sequences of length 1..={max_len} over the 11-word alphabet"));
 
     // (2) random near-sentences of length beyond the exhaustive bound, (3) random well-formed trees
-    let cases = ctx.tier.pick(6_000u32, 60_000u32);
+    let cases = ctx.tier.pick(160_000u32, 1_600_000u32);
     let shards = 16usize;
     let random = run_shards(shards, |shard| {
         let mut st = Stats::new();
@@ -357,6 +360,11 @@ pub fn run(ctx: &Ctx) -> Report {
     });
     total.merge(random);
 
+    // coverage-guided part: replay of the committed corpus (quick), libFuzzer campaign (thorough)
+    crate::fuzzrun::replay_corpus("grammar", &mut total);
+    if ctx.tier == Tier::Thorough && ctx.part.is_none() {
+        crate::fuzzrun::campaign("grammar", ctx.seed, 3_000_000, 8, 64, &mut total);
+    }
     Report {
         stats: total,
         rule: format!(
